@@ -148,6 +148,9 @@ BCAST_PATTERNS = (
     ("binary_new", "getitem_explicit", "getitem_explicit"), ("expand_dims", "binary_new", "getitem_explicit"),
     ("binary_new", "reduce", "getitem_explicit"), ("binary_new", "binary_new", "getitem_explicit"),
     ("broadcast_to", "getitem_explicit"), ("binary_new", "rechunk", "getitem_explicit"),
+    # several unit axes added at once, then the rewrites that have to renumber axes through them
+    ("expand_dims_multi", "rechunk"), ("expand_dims_multi", "unary", "rechunk"), ("expand_dims_multi", "rechunk", "getitem_explicit"),
+    ("expand_dims_multi", "getitem_explicit"), ("expand_dims_multi", "transpose", "rechunk"),
 )
 
 
